@@ -893,6 +893,7 @@ def extract_accessor_fresh():
 
 
 def gen_solver():
+    check_skeletons("Solver")
     out = ["/- REGENERATED by tools/extract.py from solvers/solver_*.py, utils/solver_funcs.py — do not edit. -/",
            "import SymfcModel.Model.Types", "namespace Symfc.Gen", "open Symfc", ""]
     guarded = {}
@@ -1695,6 +1696,9 @@ SKELETON_GROUPS = {
                     ("spg_reps/spg_reps_O2.py", None), ("spg_reps/spg_reps_O3.py", None),
                     ("spg_reps/spg_reps_O4.py", None)],
     "Eig": [("utils/eig_tools.py", None)],
+    "Solver": [("solvers/solver_base.py", None), ("solvers/solver_O2.py", None), ("solvers/solver_O3.py", None),
+               ("solvers/solver_O4.py", None), ("solvers/solver_O2O3.py", None), ("solvers/solver_O3O4.py", None),
+               ("solvers/solver_O2O3O4.py", None), ("utils/solver_funcs.py", None)],
     "Cutoff": [("utils/cutoff_tools.py", None)],
     "SgPermSkel": [("utils/utils.py", ["round_positions", "argsort_positions", "_find_optimal_decimals",
                                        "compute_sg_permutations"])],
